@@ -302,7 +302,9 @@ class Sandbox:
             return
         try:
             str(exception)
-        except Exception:
+        except BaseException:
+            # Whatever the conversion raises is dealt with where the
+            # exception is reported; here it must not skip the clean-up
             pass
 
     def run(self, code=None, filename=None, inputs=None, threaded=None,
